@@ -52,10 +52,7 @@ var floatFormats = []string{"short-float", "single-float", "double-float", "long
 // Each is produced in a minority of cases only, one kind per case.
 var dirtyKinds = []string{
 	"prefix-nonsymbol-target", // 'nil 't '12 '"s" '#\a ''a '#(1)
-	"dot-nil",                 // (a . nil)
-	"bits-at-eof",             // text ends in #*101
 	"float-leading-point",     // .5
-	"bcom-bar-bar-hash",       // #| a ||#
 	"integer-point-nondecimal-base",
 }
 
@@ -105,13 +102,13 @@ func (b *builder) comment() {
 		return
 	}
 	body := " " + fwPick(b.r, commentWords) + " "
-	body = strings.ReplaceAll(body, "|", "/")
+	body = strings.ReplaceAll(body, "|#", "/#")
 	if b.r.IntN(4) == 0 {
 		body += "\n more "
 	}
-	if b.dirty == "bcom-bar-bar-hash" && !b.used {
-		body += "|"
-		b.used = true
+	if b.r.IntN(100) < 15 {
+		body += "|" // #| … ||#
+		b.feat("block-comment-bar-bar-hash")
 	}
 	b.emit("bcom", "#|"+body+"|#")
 	b.feat("block-comment")
@@ -586,7 +583,7 @@ func (b *builder) listForm(maxDepth int) string {
 	if n == 0 {
 		want = "nil"
 	}
-	forceDot := b.dot || (b.dirty == "dot-nil" && !b.used)
+	forceDot := b.dot
 	b.dot = false
 	if forceDot && n == 0 {
 		ws = b.items(1, maxDepth-1)
@@ -599,9 +596,9 @@ func (b *builder) listForm(maxDepth int) string {
 		b.emit("dot", ".")
 		b.gapMust()
 		var tail string
-		if b.dirty == "dot-nil" && !b.used {
-			b.tokenSeg("nil")
-			b.used = true
+		if b.r.IntN(100) < 12 {
+			b.tokenSeg(fwPick(b.r, []string{"nil", "NIL"}))
+			b.feat("dotted-nil")
 			tail = "" // (a . nil) is (a)
 			want = "(" + join(ws) + ")"
 		} else {
@@ -882,9 +879,9 @@ func build(r *rand.Rand, base int, ff, dirty string, nForms, maxDepth int, force
 	}
 	// the form that has to show the avoided construct of a dirty case
 	dirtyAt := r.IntN(nForms)
-	if r.IntN(100) < 25 || dirty == "bcom-bar-bar-hash" {
+	if r.IntN(100) < 25 {
 		b.ws()
-		if r.IntN(3) == 0 || dirty == "bcom-bar-bar-hash" {
+		if r.IntN(3) == 0 {
 			b.comment()
 		}
 	}
@@ -901,8 +898,6 @@ func build(r *rand.Rand, base int, ff, dirty string, nForms, maxDepth int, force
 			switch dirty {
 			case "prefix-nonsymbol-target":
 				kind = fwPick(r, []string{"quote", "function", "backquote", "quote"})
-			case "dot-nil":
-				kind = "list"
 			case "float-leading-point", "integer-point-nondecimal-base":
 				kind = "token"
 			}
@@ -924,27 +919,11 @@ func build(r *rand.Rand, base int, ff, dirty string, nForms, maxDepth int, force
 	}
 	b.form = -1
 	b.depth, b.pend = 0, 0
-	lastIsBits := b.last == "bits"
-	// a text that ends in a character literal or in the token t/nil is already misread by
-	// every stream delivery of the pinned tree: most texts get a trailing blank
-	endSpecial := b.last == "char" || (b.last == "tok" && (b.segs[len(b.segs)-1].T == "nil" || b.segs[len(b.segs)-1].T == "t"))
-	switch {
-	case dirty == "bits-at-eof" && lastIsBits:
-		b.used = true
-	case lastIsBits || r.IntN(100) < 35 || (endSpecial && r.IntN(100) < 85):
+	if r.IntN(100) < 35 {
 		b.ws()
 		if r.IntN(4) == 0 {
 			b.comment()
 		}
-	}
-	if dirty == "bits-at-eof" && !b.used {
-		b.ws()
-		b.form = len(b.forms)
-		start := len(b.buf)
-		w := b.bitsLeaf()
-		b.forms = append(b.forms, Form{S: start, E: len(b.buf), Want: w, Kind: "bits", Head: "bits"})
-		b.form = -1
-		b.used = true
 	}
 	c := Case{Text: string(b.buf), Base: base, FF: ff, Segs: b.segs, Forms: b.forms}
 	if dirty != "" && b.used {
